@@ -88,10 +88,8 @@ func parsimonyUPPASS(cur, prev *tree.Node, a align.Alignment, seqs []*AncestralS
 				possibilities = align.IupacCode[c]
 			} else {
 				if c == align.ALL_AMINO {
-					for k := range charToIndex {
-						possibilities = append(possibilities, k)
-					}
-					possibilities = possibilities[:len(possibilities)-2]
+					// Any amino acid: the alphabet without gap and stop
+					possibilities = append(possibilities, a.AlphabetCharacters()...)
 				} else {
 					possibilities = append(possibilities, c)
 				}
